@@ -3,13 +3,20 @@
 #if YACLIB_FAULT_ATOMIC_FENCE == 2
 
 #  include <yaclib/fault/inject.hpp>
+#  include <yaclib/fault/verif.hpp>
 
 #  include <atomic>
 
 namespace yaclib_std {
 
+#  ifdef YACLIB_VERIF
+inline void atomic_thread_fence(std::memory_order order) noexcept {
+  yaclib::verif::BeginOp(nullptr, nullptr, 0, yaclib::verif::kFence, static_cast<int>(order), -1, 0, 0);
+}
+#  else
 inline void atomic_thread_fence(std::memory_order /*order*/) noexcept {
 }
+#  endif
 
 inline void atomic_signal_fence(std::memory_order /*order*/) noexcept {
 }
